@@ -101,7 +101,17 @@ static size_t rtCurrentDevice(void *userdata, size_t track)
 static void rtSongBegin(void *userdata)
 {
     OPNMIDIplay *context = reinterpret_cast<OPNMIDIplay *>(userdata);
-    return context->realTime_ResetState();
+    context->realTime_ResetState();
+    // A song begins with the default program and bank on every channel, like right after loading it:
+    // going back to the begin (rewind, seek, loop) must not keep those selected later in the song
+    for(size_t ch = 0; ch < context->m_midiChannels.size(); ch++)
+    {
+        OPNMIDIplay::MIDIchannel &chan = context->m_midiChannels[ch];
+        chan.patch = 0;
+        chan.bank_msb = 0;
+        chan.bank_lsb = 0;
+        chan.is_xg_percussion = false;
+    }
 }
 /* NonStandard calls End */
 
